@@ -128,6 +128,19 @@ def main(argv=None):
         else:
             violations.append(c)
 
+    # ---------------- listed open findings with a stored replay: confirm each still reproduces on the real code
+    for k in known:
+        if k.get('status') != 'open' or k['property'] != prop or not k.get('replay_file') or k['id'] in known_hits: continue
+        try:
+            rec = json.load(open(os.path.join(VERIF, k['replay_file'])))
+            rr = conc_pool.apply(_conc_worker, ((hname, rec['case'], rec['inputs'], rec['script'], 60),))
+            if any(re.search(k['label_regex'], v) for v in rr['violations']):
+                known_hits[k['id']] = dict(finding=k, n=1)
+            else:
+                print('NOTE: listed finding %s did not reproduce from its stored replay (%s): it may have been repaired' % (k['id'], rr['status']))
+        except Exception as e:
+            problems.append('stored replay of known finding %s could not be run: %r' % (k['id'], e))
+
     # ---------------- witness validation (facade vs real numpy on explored paths)
     wits = [w for r in results for w in r['witnesses']]
     wrep = conc_pool.map(_conc_worker, [(hname, w['case'], w['inputs'], w['script'], 30) for w in wits], chunksize=1) if wits else []
@@ -135,15 +148,15 @@ def main(argv=None):
     validated = 0; wit_skipped = 0
     for w, rr in zip(wits, wrep):
         if rr['status'] != 'ok' or rr['results'] is None:
-            if rr['status'] in ('script_diverged', 'assumption_failed') and not w['nice']:
+            if rr['status'] in ('script_diverged', 'assumption_failed') and (not w['nice'] or getattr(H, 'WITNESS_TIE_SENSITIVE', False)):
                 wit_skipped += 1; continue
             if rr.get('exception') and rr['status'] == 'ok':
                 pass
             else:
-                problems.append('witness replay failed in case %s: %s %s' % (w['case']['name'], rr['status'], rr.get('exception'))); continue
+                problems.append('witness replay failed in case %s: %s %s inputs=%s script=%s' % (w['case']['name'], rr['status'], rr.get('exception'), json.dumps(w['inputs'])[:200], json.dumps(w['script'])[:400])); continue
         d = R.compare_results(w['expected'], rr['results'])
         if d is None: validated += 1
-        elif not w['nice']: wit_skipped += 1
+        elif not w['nice'] or getattr(H, 'WITNESS_TIE_SENSITIVE', False): wit_skipped += 1
         else: problems.append('facade/real-code mismatch in case %s: %s (inputs %s)' % (w['case']['name'], d, json.dumps(w['inputs'])[:300]))
 
     # ---------------- aggregate
